@@ -370,6 +370,13 @@ def sdss_objid(run, camcol, field, objnum, rerun=301, skyversion=None,
             firstfield = np.array([firstfield], dtype=np.int64)
 
     #
+    # Make sure all inputs are 64-bit integers, otherwise the bit shifts
+    # below silently overflow for, e.g., 16- or 32-bit catalog columns.
+    #
+    run, camcol, field, objnum, rerun, skyversion, firstfield = [
+        np.asarray(x).astype(np.int64)
+        for x in (run, camcol, field, objnum, rerun, skyversion, firstfield)]
+    #
     # Check that all inputs have the same shape.
     #
     if run.shape != camcol.shape:
